@@ -1,0 +1,69 @@
+// SPDX-FileCopyrightText: Copyright (c) 2022-2025 Objectionary.com
+// SPDX-License-Identifier: MIT
+
+//! Verification hook (cargo feature `verif`, off by default): a plain-data
+//! copy of the complete internal state of a graph.
+
+use crate::{Persistence, Sodg};
+
+/// One slot of the vertex store.
+#[derive(Debug, Clone, PartialEq, Eq)]
+pub struct VerifVertex {
+    /// Slot number (vertex id).
+    pub id: usize,
+    /// Group tag: 0 = absent, 1 = ungrouped, otherwise the group slot.
+    pub branch: usize,
+    /// 0 = Empty, 1 = Stored (unread), 2 = Taken.
+    pub persistence: u8,
+    /// The bytes of the datum held in the slot.
+    pub data: Vec<u8>,
+    /// `true` if the datum is kept in the heap variant of `Hex`.
+    pub heap: bool,
+    /// Edges in stored order, labels as text.
+    pub edges: Vec<(String, usize)>,
+}
+
+/// Complete internal state of a graph.
+#[derive(Debug, Clone, PartialEq, Eq)]
+pub struct VerifSnapshot {
+    /// Every slot of the vertex store, present or not, ascending.
+    pub vertices: Vec<VerifVertex>,
+    /// The member lists, by slot.
+    pub branches: Vec<(usize, Vec<usize>)>,
+    /// The unread counters, by slot.
+    pub stores: Vec<(usize, usize)>,
+    /// The allocator position.
+    pub next_v: usize,
+}
+
+impl<const N: usize> Sodg<N> {
+    /// Take a snapshot of the internal state.
+    #[must_use]
+    pub fn verif_snapshot(&self) -> VerifSnapshot {
+        VerifSnapshot {
+            vertices: self
+                .vertices
+                .iter()
+                .map(|(id, vtx)| VerifVertex {
+                    id,
+                    branch: vtx.branch,
+                    persistence: match vtx.persistence {
+                        Persistence::Empty => 0,
+                        Persistence::Stored => 1,
+                        Persistence::Taken => 2,
+                    },
+                    data: vtx.data.bytes().to_vec(),
+                    heap: matches!(vtx.data, crate::Hex::Vector(_)),
+                    edges: vtx.edges.iter().map(|(a, t)| (a.to_string(), *t)).collect(),
+                })
+                .collect(),
+            branches: self
+                .branches
+                .iter()
+                .map(|(b, m)| (b, m.into_iter().collect()))
+                .collect(),
+            stores: self.stores.iter().map(|(b, s)| (b, *s)).collect(),
+            next_v: self.next_v,
+        }
+    }
+}
